@@ -290,6 +290,7 @@ def write_evidence(prop, tier, seed, coverage, wall, violations, assumptions):
     ev = {'property_id': prop, 'tier': tier, 'seed': int(seed), 'level': 'proof',
           'coverage': coverage, 'assumptions': assumptions, 'wall_s': round(wall, 2),
           'violations': int(violations)}
-    os.makedirs(os.path.join(ROOT, 'evidence'), exist_ok=True)
-    with open(os.path.join(ROOT, 'evidence', prop + '.json'), 'w') as f:
+    evdir = os.environ.get('VERIF_EVIDENCE_DIR') or os.path.join(ROOT, 'evidence')     # development runs against mutants write elsewhere
+    os.makedirs(evdir, exist_ok=True)
+    with open(os.path.join(evdir, prop + '.json'), 'w') as f:
         json.dump(ev, f, indent=1, sort_keys=True, default=str)
